@@ -43,8 +43,45 @@ func TestC21(t *testing.T) {
 		"strict interpretation (InterpretOptions on a linked clone of the same parse) is the reference; nothing about protoc is assumed",
 		"deterministic proto marshalling is a faithful identity of an uninterpreted option statement",
 	})
+	c21Fixed(r)
 	c21Generated(r)
 	c21R2(r)
+}
+
+var c21Fixtures = []struct{ name, src string }{
+	// minimal witness: a standard option path that continues into an extension the unlinked pass cannot resolve
+	{"features-ext-path", "edition = \"2023\";\nimport \"google/protobuf/go_features.proto\";\noption features.(pb.go).api_level = API_OPAQUE;\nmessage M { int32 a = 1; }\n"},
+	{"features-ext-path-on-message", "edition = \"2023\";\nimport \"google/protobuf/go_features.proto\";\nmessage M { option features.(pb.go).api_level = API_OPAQUE; option deprecated = true; int32 a = 1 [features.field_presence = IMPLICIT]; }\n"},
+	{"features-literal-with-ext", "edition = \"2023\";\nimport \"google/protobuf/go_features.proto\";\noption features = { field_presence: IMPLICIT [pb.go] { api_level: API_OPAQUE } };\nmessage M { int32 a = 1; }\n"},
+	{"pseudo-options", "syntax = \"proto2\";\nenum E { A = 1; B = 2; }\nmessage M { optional E e = 1 [default = B, json_name = \"ee\", deprecated = true]; optional int32 i = 2 [default = -7]; optional string s = 3 [json_name = \"S\", ctype = CORD]; }\n"},
+	{"custom-and-standard", "syntax = \"proto2\";\nimport \"google/protobuf/descriptor.proto\";\nextend google.protobuf.FieldOptions { repeated int32 x = 50000; }\nmessage M { optional int32 i = 1 [(x) = 1, deprecated = true, (x) = 2 ]; }\n"},
+}
+
+// c21Fixed: small fixed files, one per way the unlinked pass can fail to interpret a statement.
+func c21Fixed(r *vlib.Run) {
+	if !r.Mine(0) {
+		return
+	}
+	for _, fx := range c21Fixtures {
+		id := "fixed/" + fx.name
+		if !r.Want(id) {
+			continue
+		}
+		res0, err := parseOnce("c21.proto", fx.src)
+		if err != nil {
+			r.Inconclusive("fixed input does not parse: " + err.Error())
+			continue
+		}
+		deps, ok := compileDeps(map[string]string{"c21.proto": fx.src}, res0)
+		if !ok {
+			r.Inconclusive("fixed input: dependencies rejected")
+			continue
+		}
+		e := &c21Env{r: r, id: id, name: "c21.proto", src: fx.src, deps: deps, res0: res0}
+		if e.checkFile() {
+			r.Class("fixed input checked")
+		}
+	}
 }
 
 func parseOnce(name, src string) (parser.Result, error) {
